@@ -75,7 +75,7 @@ theorem fdApply_cubic (r : FdRow K) (a0 a1 a2 a3 x h : K) (hh : h ≠ 0) :
 /-- the `rel_element` scaling (`* (1/h)` instead of `/ h`) is the same data -/
 theorem pointData_relElem (r : FdRow K) (h : K) : pointData true r h = pointData false r h := by
   unfold pointData
-  simp [div_eq_mul_one_div]
+  simp only [if_true, Bool.false_eq_true, if_false, mul_one_div]
 
 /-- a consistent row gives scaled data whose coefficients sum to zero -/
 theorem coeffSum_pointData (r : FdRow K) (h : K) (hh : h ≠ 0) (b : Bool) (hm : moment0 r = 0) :
@@ -113,7 +113,7 @@ section Cast
 variable {K : Type} [Field K] [CharZero K]
 
 /-- a row of the (rational) table read in the field `K` -/
-def castRow (r : FdRow Rat) : FdRow K := r.map (fun q => (q : K))
+def castRow (r : FdRow Rat) : FdRow K := FdRow.map (fun q : Rat => (q : K)) r
 
 theorem powN_cast (q : Rat) (k : Nat) : ((powN q k : Rat) : K) = powN (q : K) k := by
   induction k with
